@@ -114,13 +114,13 @@ def read_task(prop, cfg, tier, seed):
         ctx.scenario = read_scenario(
             ctx, E, vars_, entry="vdi", params=lambda mo: dict(has_parent=has_parent),
             call=lambda mo: ["_read", mi(mo, offset), mi(mo, length)], total=lambda mo: mi(mo, explen),
-            g0=lambda mo: mi(mo, offset), spec_at=spec_at, unit=bs, rng=rng, j=j,
+            g0=lambda mo: mi(mo, offset), spec_at=spec_at, unit=bs, rng=rng, maxlen=(lambda mo: mi(mo, length)) if cfg.get("tail") else None, j=j,
             opaque=("parent",) if has_parent else (),
             prefer=[nblocks <= 1 << 20] + ([length <= 16 << 20] if bs <= (4 << 20) else []))
         obj = m.VDI(fh, parent)
         res = obj._read(offset, length)
         sv = spec.guest_byte(offset + j, hdr_blocks_off, hdr_data_off, bs, mem, par)
-        bad = byte_obligation(res, j, explen, sv, extra=[obj.size != disk_size])
+        bad = byte_obligation(res, j, explen, sv, extra=[obj.size != disk_size], maxlen=length if cfg.get("tail") else None)
         if ctx.obligation(bad, "read differs from the guest-visible content"):
             ctx.witness()
 
